@@ -239,7 +239,7 @@ impl VhostBackend for Frontend {
 
         let mut ctx = VhostUserMemoryContext::new();
         for region in regions.iter() {
-            if region.memory_size == 0 || region.mmap_handle < 0 {
+            if region.memory_size == 0 || region.mmap_handle < 0 || !region.to_region().is_valid() {
                 return error_code(VhostUserError::InvalidParam);
             }
 
@@ -273,6 +273,9 @@ impl VhostBackend for Frontend {
                 mmap_size: region.mmap_size,
                 mmap_offset: region.mmap_offset,
             };
+            if !log.is_valid() {
+                return error_code(VhostUserError::InvalidParam);
+            }
             let hdr = node.send_request_with_body(
                 FrontendReq::SET_LOG_BASE,
                 &log,
@@ -315,6 +318,9 @@ impl VhostBackend for Frontend {
         }
 
         let val = VhostUserVringAddr::from_config_data(queue_index as u32, config_data);
+        if !val.is_valid() {
+            return error_code(VhostUserError::InvalidParam);
+        }
         let hdr = node.send_request_with_body(FrontendReq::SET_VRING_ADDR, &val, None)?;
         node.wait_for_ack(&hdr).map_err(|e| e.into())
     }
@@ -572,6 +578,9 @@ impl VhostUserFrontend for Frontend {
         }
 
         let body = region.to_single_region();
+        if !body.is_valid() {
+            return error_code(VhostUserError::InvalidParam);
+        }
         let fds = [region.mmap_handle];
         let hdr = node.send_request_with_body(FrontendReq::ADD_MEM_REG, &body, Some(&fds))?;
         node.wait_for_ack(&hdr).map_err(|e| e.into())
@@ -585,6 +594,9 @@ impl VhostUserFrontend for Frontend {
         }
 
         let body = region.to_single_region();
+        if !body.is_valid() {
+            return error_code(VhostUserError::InvalidParam);
+        }
         let hdr = node.send_request_with_body(FrontendReq::REM_MEM_REG, &body, None)?;
         node.wait_for_ack(&hdr).map_err(|e| e.into())
     }
